@@ -4,6 +4,7 @@ import (
 	"bufio"
 	"encoding/json"
 	"fmt"
+	"govc/sym"
 	"os"
 	"path/filepath"
 	"sort"
@@ -233,7 +234,24 @@ func WriteBaseline(opt Options, rr *RunResult, v *Verdict) error {
 	bl[opt.Prop] = m
 	os.MkdirAll(filepath.Join(opt.Verif, "baseline"), 0o755)
 	b, _ := json.MarshalIndent(bl, "", " ")
-	return os.WriteFile(filepath.Join(opt.Verif, "baseline", "obligations.json"), append(b, '\n'), 0o644)
+	if err := os.WriteFile(filepath.Join(opt.Verif, "baseline", "obligations.json"), append(b, '\n'), 0o644); err != nil {
+		return err
+	}
+	// parameters and locals of the functions under contract, in declaration order (rebinding of renamed variables)
+	loc := loadLocals(opt.Verif)
+	for k, l := range rr.Locals {
+		loc[k] = l
+	}
+	lb, _ := json.MarshalIndent(loc, "", " ")
+	return os.WriteFile(filepath.Join(opt.Verif, "baseline", "locals.json"), append(lb, '\n'), 0o644)
+}
+
+func loadLocals(verif string) map[string][]sym.LocalInfo {
+	out := map[string][]sym.LocalInfo{}
+	if b, err := os.ReadFile(filepath.Join(verif, "baseline", "locals.json")); err == nil {
+		json.Unmarshal(b, &out)
+	}
+	return out
 }
 
 // replayFile writes the replay case of a violated obligation and returns its path relative to /verif.
@@ -391,6 +409,9 @@ func Check(opt Options, writeBaseline bool) int {
 	if err != nil {
 		fmt.Println("ENGINE-ERROR:", err)
 		return 2
+	}
+	if !writeBaseline {
+		sym.BaselineLocals = loadLocals(opt.Verif)
 	}
 	own, used := Select(all, opt.Prop)
 	if len(own) == 0 {
